@@ -486,6 +486,11 @@ func VerifyFunc(w *World, c *Contract) (res *FuncResult) {
 				res.Errors = append(res.Errors, fmt.Sprintf("returns clause at %s:%d could not be evaluated at any return (a local it mentions does not exist)", shortFile(e.File), e.Line))
 			}
 		}
+		for _, g := range x.guards {
+			if x.guardCount[g.field] == 0 && len(res.Errors) == 0 {
+				res.Errors = append(res.Errors, fmt.Sprintf("guarded clause matched no access (%s)", g.text))
+			}
+		}
 		for _, sc := range c.Sites {
 			if x.siteCount[sc.Site] == 0 && len(res.Errors) == 0 {
 				res.Errors = append(res.Errors, fmt.Sprintf("site clause at %s:%d matched no call (%s)", shortFile(sc.File), sc.Line, sc.Site))
@@ -611,6 +616,7 @@ func VerifyFunc(w *World, c *Contract) (res *FuncResult) {
 	cover.MustFail = true
 	x.old = st.clone()
 	x.entrySt = x.old
+	x.resolveGuards(c, fi)
 	x.variant0 = nil
 	if c.Variant != nil {
 		env := x.funcEnv(st)
@@ -820,6 +826,50 @@ type frameLoc struct {
 	heap  string
 	whole bool
 	ref   Term
+	// sub: the location is a (nested) field of the struct value held in the cell; each step names the
+	// struct and the field that may change at that level (everything else in the cell must stay)
+	sub []subStep
+}
+
+type subStep struct {
+	si  *structInfo
+	idx int
+}
+
+// sameExceptSub: struct value b equals a except (at most) along the sub-field path.
+func (x *Exec) sameExceptSub(a, b Term, path []subStep) Term {
+	if len(path) == 0 {
+		return tTrue
+	}
+	st := path[0]
+	var cs []Term
+	for i := range st.si.Fields {
+		fa, fb := x.structField(a, st.si, i), x.structField(b, st.si, i)
+		if i == st.idx {
+			cs = append(cs, x.sameExceptSub(fa, fb, path[1:]))
+		} else {
+			cs = append(cs, eq(fa, fb))
+		}
+	}
+	return and(cs...)
+}
+
+// fieldLoc resolves a field expression of an assigns clause to (heap, object, sub-field path).
+func (x *Exec) fieldLoc(env *specEnv, a *SpecExpr) (string, Term, []subStep) {
+	base, bt := env.eval(a.Args[0])
+	bt = x.subst(types.Unalias(bt))
+	if p, ok := bt.Underlying().(*types.Pointer); ok {
+		si := x.structOf(p.Elem())
+		_, f := si.field(a.Name)
+		return fieldHeapName(si, f), base, nil
+	}
+	if _, ok := bt.Underlying().(*types.Struct); ok && a.Args[0].Kind == "field" {
+		h, r, sub := x.fieldLoc(env, a.Args[0])
+		si := x.structOf(bt)
+		i, _ := si.field(a.Name)
+		return h, r, append(sub, subStep{si, i})
+	}
+	panic(specFail{"unsupported assigns target " + a.String()})
 }
 
 // frameLocs evaluates the assigns clause (in the entry state) to the permitted locations.
@@ -884,11 +934,8 @@ func (x *Exec) frameLocs() []frameLoc {
 			}
 			switch a.Kind {
 			case "field":
-				base, bt := envOld.eval(a.Args[0])
-				p := x.subst(types.Unalias(bt)).Underlying().(*types.Pointer)
-				si := x.structOf(p.Elem())
-				_, f := si.field(a.Name)
-				locs = append(locs, frameLoc{heap: fieldHeapName(si, f), ref: base})
+				h, r, sub := x.fieldLoc(envOld, a)
+				locs = append(locs, frameLoc{heap: h, ref: r, sub: sub})
 			case "unary":
 				p, pt := envOld.eval(a.Args[0])
 				elem := pt.Underlying().(*types.Pointer).Elem()
@@ -915,12 +962,17 @@ func (x *Exec) frameFormula(n string, cur Term) (Term, bool) {
 		return tTrue, true
 	}
 	var refs []Term
+	var subs []Term
 	for _, l := range x.frameLocs() {
 		if l.heap == n {
 			if l.whole {
 				return tTrue, false
 			}
 			refs = append(refs, l.ref)
+			if len(l.sub) > 0 {
+				// (several sub-field locations in one cell are treated as "the whole cell may change")
+				subs = append(subs, x.sameExceptSub(sel(was, l.ref), sel(cur, l.ref), l.sub))
+			}
 		}
 	}
 	if strings.HasPrefix(n, "G_") {
@@ -934,7 +986,11 @@ func (x *Exec) frameFormula(n string, cur Term) (Term, bool) {
 	if len(ex) == 0 {
 		guard = fmt.Sprintf("(and (< 0 r) (< r %s))", old.alloc.S)
 	}
-	return Term{fmt.Sprintf("(forall ((r Int)) (! (=> %s (= (select %s r) (select %s r))) :pattern ((select %s r))))", guard, cur.S, was.S, cur.S), SBool}, true
+	q := Term{fmt.Sprintf("(forall ((r Int)) (! (=> %s (= (select %s r) (select %s r))) :pattern ((select %s r))))", guard, cur.S, was.S, cur.S), SBool}
+	if len(subs) == 1 {
+		return and(q, subs[0]), true
+	}
+	return q, true
 }
 
 // checkFrame: every heap array that differs from the entry state must be permitted by assigns.
